@@ -6,11 +6,7 @@ namespace Bee2V.C08
 
 /-- `omega` knowing the numerals behind W, SIZE_MAX, U32 -/
 macro "omegaW" : tactic => `(tactic|
-  (have hW_ : W = 18446744073709551616 := rfl
-   have hS_ : SIZE_MAX = 18446744073709551615 := rfl
-   have hU_ : U32 = 4294967296 := rfl
-   have hM_ : U32_MAX = 4294967295 := rfl
-   omega))
+  ((try simp only [W, SIZE_MAX, U32, U32_MAX] at *); omega))
 
 theorem rd_of_lt {xs : List UInt8} {i : Nat} (h : i < xs.length) : rd xs i = .ok xs[i].toNat := by
   simp [rd, List.getElem?_eq_getElem h]
